@@ -266,7 +266,9 @@ UNDECIDED_SEEDS = {'C01_d': 'wrong multiplication count in a while loop: E2 does
                    'C12_h': 'UTPM.shift rewritten with an index array whose mask admits negative (wrapping) indices: value-level index arithmetic on an array, '
                             'outside the affine index domain; shift(s<0) reads higher orders by design and is not a graded kernel'}
 # neutral patches written against an older commit that fire there for a true reason
-NEUTRAL_SKIP = {'N7/patch3.diff': 'written before fix 02c76d5; on that tree the check reports the real _eigh_pullback defect'}
+NEUTRAL_SKIP = {'N7/patch3.diff': 'written before fix 02c76d5; on that tree the check reports the real _eigh_pullback defect',
+                'S4/patch2.diff': '_diag without loops: diagonals written through a strided view of a reshape (`values.reshape((D,P,N*N))[:,:,::N+1] = v_data`) and read '
+                                  'with numpy.diagonal(axis1=2, axis2=3) - outside the idioms E2 understands; C07/C12 stop with exit 2 (not decided, no violation named)'}
 
 
 def patch_variants(prop):
